@@ -146,8 +146,32 @@ def gen_call_config(rng, tier):
         "mcmc_chains": rng.choice([1, 2, 3]),
         "mcmc_seed": rng.randrange(1, 1 << 20),
         "report_gp": rng.random() < 0.5,
+        # --filter-input-haplotypes AFP>=x ; x never equals a 3-decimal AFP value
+        "allele_filter": rng.choice([None, None, None, 0.0995, 0.1505, 0.3005]),
     })
     return cfg
+
+
+def filter_args(cfg):
+    if cfg.get("allele_filter") is None:
+        return []
+    return ["--filter-input-haplotypes", "AFP>=%r" % cfg["allele_filter"]]
+
+
+def effective_loci(cfg, loci):
+    """What the records mean after --filter-input-haplotypes: ALT alleles failing the filter are removed (the remaining ones are
+    renumbered), a reference allele failing it is masked instead."""
+    thr = cfg.get("allele_filter")
+    if thr is None:
+        return loci
+    import numpy as np
+    out = []
+    for l in loci:
+        keep = [float(np.float32(x)) >= thr for x in l["afp"]]
+        masked = l["masked"] or not keep[0]
+        keep[0] = True
+        out.append({"name": l["name"], "seqs": [q for q, k in zip(l["seqs"], keep) if k], "afp": [x for x, k in zip(l["afp"], keep) if k], "masked": masked})
+    return out
 
 
 def write_haplotype_vcf(cfg, ds, path):
@@ -267,10 +291,10 @@ def run_call_cli(ctx):
     with Workdir() as tmp:
         ds = make_dataset(cfg, tmp)
         hv = os.path.join(tmp, "haplotypes.vcf")
-        loci = write_haplotype_vcf(cfg, ds, hv)
+        loci = effective_loci(cfg, write_haplotype_vcf(cfg, ds, hv))
         by_name = {l["name"]: l for l in loci}
         argv, ploidy, inb = sample_args(cfg, ds, tmp)
-        argv += ["--haplotypes", hv]
+        argv += ["--haplotypes", hv] + filter_args(cfg)
         if cfg["use_afp"]:
             argv += ["--prior-frequencies", "AFP"]
         cur = {}
@@ -421,6 +445,8 @@ def run_call_cli(ctx):
                                         % (rec["locus"], s, bad[0], bad[1], bad[2]), step=0)
                     ctx.counters.inc("cli_exact_array_compared")
         ctx.counters.inc("cli_targets_compared", done)
+        if cfg.get("allele_filter") is not None:
+            ctx.counters.inc("cli_allele_filter")
 
         # reported genotypes
         for which, recs, parsed in (("call", call_recs, r_call), ("call-exact", exact_recs, r_exact)):
@@ -596,6 +622,8 @@ def shrink_candidates(cfg):
         mod(max_alts=cfg["max_alts"] - 1)
     if cfg.get("report_gp"):
         mod(report_gp=False)
+    if cfg.get("allele_filter") is not None:
+        mod(allele_filter=None)
     if cfg.get("dummy_parent"):
         mod(dummy_parent=False)
     for k in ("tau_mode", "lambda_mode", "error_mode"):
@@ -694,7 +722,7 @@ def run_pedigree_cli(ctx):
     with Workdir() as tmp:
         ds = make_dataset(cfg, tmp)
         hv = os.path.join(tmp, "haplotypes.vcf")
-        loci = write_haplotype_vcf(cfg, ds, hv)
+        loci = effective_loci(cfg, write_haplotype_vcf(cfg, ds, hv))
         by_name = {l["name"]: l for l in loci}
         pl = cfg["ped_ploidy"]
         names = list(ds["samples"])
@@ -717,7 +745,7 @@ def run_pedigree_cli(ctx):
         with open(ped_file, "w") as f:
             for s in order:
                 f.write("%s\t%s\t%s\n" % (s, parents[s][0] or ".", parents[s][1] or "."))
-        argv = ["--bam"] + ds["bam_files"] + ["--ploidy", ploidy_file, "--haplotypes", hv, "--sample-parents", ped_file]
+        argv = ["--bam"] + ds["bam_files"] + ["--ploidy", ploidy_file, "--haplotypes", hv, "--sample-parents", ped_file] + filter_args(cfg)
         if cfg["use_afp"]:
             argv += ["--prior-frequencies", "AFP"]
         tau = {s: (pl // 2, pl // 2) for s in everyone}
@@ -753,7 +781,7 @@ def run_pedigree_cli(ctx):
                     f.write("%s\t%r\t%r\n" % (s, err[s][0], err[s][1]))
             argv += ["--gamete-error", path]
 
-        own_reads = _record_call_reads(m, ["--bam"] + ds["bam_files"] + ["--ploidy", ploidy_file, "--haplotypes", hv]
+        own_reads = _record_call_reads(m, ["--bam"] + ds["bam_files"] + ["--ploidy", ploidy_file, "--haplotypes", hv] + filter_args(cfg)
                                        + (["--prior-frequencies", "AFP"] if cfg["use_afp"] else []))
         recs = []
         cur = {}
